@@ -3,32 +3,54 @@ import OVM.Tet.ShapeTet
 import OVM.Tet.TetLemmas
 import OVM.Tet.LabelLemmas
 import OVM.Tet.CollapseLemmas
+import OVM.Tet.ShapeRun
+import OVM.Tet.TetCells
+import OVM.Tet.LabelsCell
+import OVM.Tet.CollapseQuads
+import OVM.Tet.TetConstruct
+import OVM.Tet.TetChecked
 /-
   C15 — tetrahedral kernel: shape invariants, vertex-order contracts, label tables, edge collapse.
 
   What is proved here (unbounded: any mesh state, any argument):
   (a) `ValenceShape` (every stored face has three halfedges, every stored cell four halffaces) is kept by
-      every operation of the tet vocabulary — construction through all overrides and conveniences
-      (accepted or refused), swaps, `delete_cell`, all deletions / garbage collection / collapse /
-      split in deferred or in fast mode (`shape_step_partial`, `shape_run_partial`); refused calls of
-      the three overrides return the very state they were given.  In non-fast immediate mode an erase
-      rewrites definitions (`fixHalfList`); there the shape is kept under the explicit hypothesis that no
-      stored definition still mentions the erased slot (`shape_shifting_erase_partial`) — that
-      `delete_face` / `delete_edge` / `delete_vertex` / `collect_garbage` establish it before each erase
-      is C02's closure invariant (refinement ladder), evaluated on every step of the correspondence run.
-      A cell that satisfies `IsTet` has exactly four vertices, so `TetShape` follows from the valence
-      shape and `IsTet` of the live cells (`tetShape_of_isTet`).
+      every operation of the tet driver vocabulary IN EVERY DELETION MODE (`shape_step`, `shape_run`): on top of
+      K5's global kernel invariant `Global.GInv = WF ∧ oneCell ∧ Closed ∧ FlagInv` (OVM/Refine/Global*.lean), for
+      valid arguments (`TetOpOK`: handles in range and not deleted, halffaces of a new cell free and distinct;
+      no condition on the deletion mode or the bottom-up configuration).  The index-shifting erase stages
+      (`fixHalfList`) only ever see a slot that no stored definition mentions: K4's closure lemmas
+      (OVM/Refine/CacheImmediate.lean, CacheGC.lean), threaded through in OVM/Tet/ShapeAll.lean.  Refused calls of
+      the three overrides return the very state they were given.
+      Gap (explicit hypothesis in `TetOpOK`): for `collapse_edge` / `split_edge` / `split_face` the step theorem
+      assumes that the state just before the operation switches back to the caller's deletion mode satisfies
+      `GInv` (for `collapse_edge` this is what the link condition is for; not proved; discharged on concrete
+      instances in OVM/Tet/ShapeRun.lean).  In deferred or fast mode no hypothesis at all is needed
+      (`shape_deletions_deferred_or_fast`).
+      Four distinct vertices: a cell that satisfies `IsTet` has exactly four vertices (`tetShape_of_isTet`).  WHICH
+      construction paths give `IsTet`: `add_cell(v0,v1,v2,v3)` on four different live vertices in a mesh whose
+      stored faces are closed triangles (`addCell4_isTet`, and every stored tetrahedron stays one: `addCell4_allTet`).
+      `add_cell(halffaces)` since 64c6d58 (finding /verif/findings/C15-pillow-cell.md, fixed): an ACCEPTED call on loop
+      faces stores four distinct vertices, any `topologyCheck` (`addCellHF_fourVerts`); with topology check and no
+      parallel halfedges the cell is `IsTet` (`addCellHF_checked_isTet`); both hypotheses are needed
+      (`addCellHF_hypotheses_needed`); the former double pillow is rejected (`pillow_cell_rejected`).  Along whole
+      construction histories through both paths: `tetShape_of_construction`.
   (b) for `IsTet k c` (and the halfface→cell cache agreeing on `c`): all four `get_cell_vertices`
       overloads, `halfface_opposite_vertex` / `vertex_opposite_halfface` mutually inverse, `tv_iter`.
-  (c) the label algebra, by kernel `decide` over the whole regenerated tables (OVM/Gen/TetLabels.lean).
-      Its connection to an actual cell is the hand-written constructor walk OVM/Tet/Topology.lean,
-      compared with the implementation for every constructor choice in the correspondence run
-      (`LabelsConsistent` below is the statement that is not proved).
-  (d) the abstract collapse on oriented vertex quadruples, and the arithmetic of the returned handle
-      against the renumbering of an immediate vertex deletion, down to the model's property columns.
-      That the model algorithm `collapseEdge` (rebuild the star of `a` on `b`, deferred delete, re-add)
-      refines the abstract operation is `CollapseRefines` below: not proved, evaluated on every collapse
-      of the correspondence run through the vertex identity tokens.
+  (c) the label algebra, by kernel `decide` over the whole regenerated tables (OVM/Gen/TetLabels.lean), AND its
+      connection to an actual cell: for an `IsTet` cell whose halffaces are closed loops and which is a closed
+      surface (what `add_cell` with topology check verifies), every constructor choice of `TetTopology` labels
+      vertices, halfedges, halffaces consistently and `get_label` inverts every accessor (`labels_consistent`,
+      OVM/Tet/LabelsCell.lean).  `IsTet` alone is not enough (`labels_need_closed_loops`: three `decide` witnesses).
+  (d) the abstract collapse on oriented vertex quadruples; the arithmetic of the returned handle against the
+      renumbering of an immediate vertex deletion, down to the model's property columns; and the REFINEMENT:
+      in deferred deletion mode the model algorithm `collapseEdge` (rebuild the star of `a` on `b`, deferred delete,
+      re-add) yields, as a multiset of canonical oriented quadruples, exactly `absCollapse a b` of the former cells;
+      every re-created cell is a tetrahedron again and an even rearrangement of a former cell with `a` renamed to
+      `b`; the returned handle is `b`, live afterwards, and `a` is deleted (`collapse_refines_partial`,
+      OVM/Tet/Collapse{Star,Finish,Refine,Quads}.lean).  `_partial`: the two immediate modes are this operation
+      followed by `collect_garbage` (`collapseEdge_eq`); that garbage collection preserves the quadruples up to
+      the vertex renumbering is not proved here (evaluated by lean/OVM/Tet/Judge.lean on every collapse of the
+      correspondence run through the vertex identity tokens).
 -/
 namespace OVM.Props.C15
 open OVM OVM.Kernel OVM.Tet
@@ -77,41 +99,36 @@ theorem shape_deletions_deferred_or_fast (k : Kernel) (m : ModeOK k) :
    collectGarbage_keeps k, fun h hv => collapseEdge_valence k h hv m, fun h hv => splitEdge_valence k h hv m,
    fun f hv => splitFace_valence k f hv m⟩
 
-/-- PARTIAL (the hypothesis `NoRef…` is what is missing): the index-shifting erase of a face / an edge
-    keeps every definition's length when no stored cell / face still mentions the erased slot.  That the
-    public deletions and `collect_garbage` reach the erase only in such states is C02's closure invariant. -/
-theorem shape_shifting_erase_partial (k : Kernel) (h : Nat) (hv : ValenceShape k) :
+/-- the index-shifting erase of a face / an edge keeps every definition's length when no stored cell / face
+    still mentions the erased slot … -/
+theorem shape_shifting_erase (k : Kernel) (h : Nat) (hv : ValenceShape k) :
     (NoRefF k h → ValenceShape (k.deleteFaceCore h)) ∧ (NoRefE k h → ValenceShape (k.deleteEdgeCore h)) :=
   ⟨fun hn => (deleteFaceCore_keeps k h (Or.inr hn)).shape hv, fun hn => (deleteEdgeCore_keeps k h (Or.inr hn)).shape hv⟩
 
-/-- PARTIAL (restricted by `ShiftFree`: deferred or fast mode for the erasing operations; `argsOK` only
-    concerns the inherited, unguarded `set_face` / `set_cell`): one step of the whole driver vocabulary
-    — base kernel operations with the tet overrides, the conveniences, collapse, split — keeps the shape -/
-theorem shape_step_partial (k : Kernel) (op : TetOp) (hv : ValenceShape k) (ha : op.argsOK) (hs : ShiftFree k op) :
-    ValenceShape (k.stepTetX op).1 := valenceShape_stepTetX k op hv ha hs
+/-- … and under the global kernel invariant the public deletions and `collect_garbage` reach the erase only in
+    such states: `delete_face/edge/vertex`, `collect_garbage`, `enable_deferred_deletion` keep the shape in EVERY
+    deletion mode (no `ShiftFree` restriction any more) -/
+theorem shape_deletions_all_modes (k : Kernel) (hi : Global.GInv k) (hv : ValenceShape k) :
+    (∀ f, f < k.nF → ValenceShape (k.deleteFace f)) ∧ (∀ e, e < k.nE → ValenceShape (k.deleteEdge e)) ∧
+    (∀ v, ValenceShape (k.deleteVertex v)) ∧ ValenceShape k.collectGarbage ∧ (∀ b, ValenceShape (k.enableDeferred b)) :=
+  ⟨fun _ hf => Global.shape_deleteFace hi hf hv, fun _ he => Global.shape_deleteEdge hi he hv,
+   fun v => Global.shape_deleteVertex hi v hv, Global.shape_collectGarbage hi hv, fun b => Global.shape_enableDeferred hi b hv⟩
 
-/-- a history all of whose steps are admissible -/
-def Admissible : Kernel → List TetOp → Prop
-  | _, [] => True
-  | k, op :: rest => op.argsOK ∧ ShiftFree k op ∧ Admissible (k.stepTetX op).1 rest
+/-- **one step of the whole driver vocabulary** — base kernel operations with the tet overrides, the
+    conveniences, collapse, split — keeps `ValenceShape ∧ GInv`, in every deletion mode, for valid arguments
+    (`TetOpOK`, OVM/Tet/ShapeRun.lean; for collapse / split it contains the gap hypothesis described in the header) -/
+theorem shape_step (k : Kernel) (op : TetOp) (hi : TInv k) (hok : TetOpOK k op) : TInv (k.stepTetX op).1 :=
+  tinv_stepTetX k op hi hok
 
-instance : (k : Kernel) → (ops : List TetOp) → Decidable (Admissible k ops)
-  | _, [] => isTrue trivial
-  | k, op :: rest =>
-    have := instDecidableAdmissible (k.stepTetX op).1 rest
-    by unfold Admissible; infer_instance
+/-- **any admissible sequence** of additions (including refused ones), deletions, garbage collections, collapses,
+    splits, swaps, mode switches keeps `ValenceShape ∧ GInv` -/
+theorem shape_run (ops : List TetOp) (k : Kernel) (hi : TInv k) (h : AdmissibleAll k ops) : TInv (runTetX k ops) :=
+  tinv_run ops k hi h
 
-def runTet (k : Kernel) (ops : List TetOp) : Kernel := ops.foldl (fun k op => (k.stepTetX op).1) k
-
-/-- PARTIAL (same restriction): any admissible sequence of additions (including refused ones), deletions,
-    garbage collections, collapses, splits, swaps, starting from the empty mesh -/
-theorem shape_run_partial (ops : List TetOp) (k : Kernel) (hv : ValenceShape k) (h : Admissible k ops) :
-    ValenceShape (runTet k ops) := by
-  induction ops generalizing k with
-  | nil => exact hv
-  | cons op rest ih =>
-    obtain ⟨ha, hs, hr⟩ := h
-    exact ih _ (shape_step_partial k op hv ha hs) hr
+/-- … in particular every state reachable from the empty mesh -/
+theorem shape_reachable (ops : List TetOp) (h : AdmissibleAll {} ops) :
+    ValenceShape (runTetX {} ops) ∧ Global.GInv (runTetX {} ops) :=
+  ⟨(tinv_reachable ops h).shape, (tinv_reachable ops h).ginv⟩
 
 theorem shape_empty : ValenceShape ({} : Kernel) := valenceShape_empty
 
@@ -119,6 +136,91 @@ theorem shape_empty : ValenceShape ({} : Kernel) := valenceShape_empty
     from the valence shape once the live cells are tetrahedra -/
 theorem tetShape_of_isTet (k : Kernel) (hv : ValenceShape k) (ht : ∀ c ∈ k.liveCells, IsTet k c) : TetShape k :=
   tetShape_of hv ht
+
+/-- **`add_cell(v0,v1,v2,v3)` builds a tetrahedron**: on four different live vertices, in a mesh whose stored faces
+    are closed triangles (`FaceLoops`) with the vertex and edge caches and the global invariant (`BInv`), the cell that
+    comes back — if any: the topology check may refuse — is `IsTet`, its first halfface runs `(v0,v1,v2)` up to
+    rotation, and its vertices are exactly `v0,v1,v2,v3` -/
+theorem addCell4_isTet (k : Kernel) (h : BInv k) (v0 v1 v2 v3 : Nat) (o0 : Global.VOk k v0) (o1 : Global.VOk k v1)
+    (o2 : Global.VOk k v2) (o3 : Global.VOk k v3) (hd : [v0, v1, v2, v3].Nodup) (chk : Bool) (c : Nat)
+    (hc : (k.tetAddCell4 v0 v1 v2 v3 chk).2 = some c) :
+    c = k.nC ∧ IsTet (k.tetAddCell4 v0 v1 v2 v3 chk).1 c ∧
+    Rot ((k.tetAddCell4 v0 v1 v2 v3 chk).1.hfVerts (((k.tetAddCell4 v0 v1 v2 v3 chk).1.cellAt c).headD 0)) [v0, v1, v2] ∧
+    (∀ x, x ∈ (k.tetAddCell4 v0 v1 v2 v3 chk).1.cellVertSet c ↔ x ∈ [v0, v1, v2, v3]) :=
+  tetAddCell4_isTet h o0 o1 o2 o3 hd chk hc
+
+/-- … and every stored cell that was a tetrahedron stays one, whether the new cell is accepted or refused -/
+theorem addCell4_allTet (k : Kernel) (h : BInv k) (ht : AllTet k) (v0 v1 v2 v3 : Nat) (o0 : Global.VOk k v0)
+    (o1 : Global.VOk k v1) (o2 : Global.VOk k v2) (o3 : Global.VOk k v3) (hd : [v0, v1, v2, v3].Nodup) (chk : Bool) :
+    AllTet (k.tetAddCell4 v0 v1 v2 v3 chk).1 :=
+  tetAddCell4_allTet h ht o0 o1 o2 o3 hd chk
+
+/-- **construction histories**: any sequence of `add_vertex`, `add_n_vertices`, `add_halfface(a,b,c)`,
+    `add_cell(v0,v1,v2,v3)` (with or without topology check, accepted or refused) and topology-CHECKED
+    `add_cell(halffaces)` (accepted or refused) on valid arguments — different live vertices; the halffaces of an
+    accepted cell live, free and pairwise different (`Cell4Free` / K5's `OpOK`), without parallel halfedges for
+    `add_cell(halffaces)` — from the empty mesh gives a tetrahedral mesh: every face three halfedges, every cell four
+    halffaces and FOUR DISTINCT VERTICES (`TetShape`), every stored cell `IsTet` -/
+theorem tetShape_of_construction (ops : List BuildOp) (h : BuildAdmissible {} ops) :
+    ValenceShape (runBuild {} ops) ∧ TetShape (runBuild {} ops) ∧ AllTet (runBuild {} ops) :=
+  tetShape_construct ops h
+
+/-- two triangles on disjoint vertex triples, each with both of its halffaces -/
+def pillow : Kernel :=
+  let k0 := ({} : Kernel).addNVertices 6
+  let k1 := (k0.tetAddFaceV [0, 1, 2]).1
+  (k1.tetAddFaceV [3, 4, 5]).1
+
+/-- the double pillow of finding /verif/findings/C15-pillow-cell.md (two triangles on disjoint vertex triples, each
+    with both halffaces: valid, live, free, pairwise different handles; four triangles; a closed surface) is now
+    REJECTED by the tet override of `add_cell(halffaces)`, with and without topology check (fix 64c6d58: the four
+    halffaces must span exactly four vertices — they span six); the state is unchanged -/
+theorem pillow_cell_rejected :
+    Global.opOKB pillow (.addCell true [0, 1, 2, 3]) = true ∧ ClosedSurface pillow [0, 1, 2, 3] ∧ FaceLoops pillow ∧
+    pillow.spanVertCount [0, 1, 2, 3] = 6 ∧
+    pillow.tetAddCell [0, 1, 2, 3] true = (pillow, none) ∧ pillow.tetAddCell [0, 1, 2, 3] false = (pillow, none) := by
+  decide +kernel
+
+/-- **an ACCEPTED `add_cell(halffaces)` of the tet kernel — any `topologyCheck` — on halffaces that are closed loops
+    stores a cell with four halffaces and exactly FOUR DISTINCT VERTICES** (64c6d58) -/
+theorem addCellHF_fourVerts (k : Kernel) (hfs : List Nat) (chk : Bool) (c : Nat) (h : (k.tetAddCell hfs chk).2 = some c)
+    (hl : ∀ hf ∈ hfs, Loop3 k (k.hfHes hf)) :
+    ((k.tetAddCell hfs chk).1.cellAt c).length = 4 ∧ ((k.tetAddCell hfs chk).1.cellVertSet c).length = 4 :=
+  tetAddCell_fourVerts h hl
+
+/-- … **and with topology check it is a tetrahedron** (`IsTet`: the four halffaces are, one to one, the four oriented
+    triangles of a tetrahedron), provided no two different halfedges of the four halffaces run between the same ordered
+    vertex pair (`NoParallel`: no duplicate edge inside the cell).  Four triangles on four vertices whose twelve
+    halfedges are pairwise different and matched by their opposites ARE the boundary of a tetrahedron (`fin_tet`:
+    decided over `Fin 4`). -/
+theorem addCellHF_checked_isTet (k : Kernel) (hfs : List Nat) (c : Nat) (h : (k.tetAddCell hfs true).2 = some c)
+    (hl : ∀ hf ∈ hfs, Loop3 k (k.hfHes hf)) (hnp : NoParallel k hfs) : IsTet (k.tetAddCell hfs true).1 c :=
+  tetAddCell_checked_isTet h hl hnp
+
+/-- four faces that are NOT loops (only creatable by an unchecked `add_face(halfedges)`): start vertices 0,1,2, one end vertex 3 -/
+def unloopFaces : Kernel :=
+  let k0 := ({} : Kernel).addNVertices 4
+  let k1 := [(0, 1), (1, 2), (2, 0), (0, 3)].foldl (fun k (e : Nat × Nat) => (k.addEdge e.1 e.2 true).1) k0
+  [[0, 2, 4], [6, 0, 2], [0, 2, 6], [2, 6, 0]].foldl (fun k f => (k.tetAddFace f false).1) k1
+
+/-- two triangle pairs on (0,1,2) and (0,1,3) through a DUPLICATE edge 0–1 (`add_edge(…, allow_duplicates = true)`) -/
+def dupPillow : Kernel :=
+  let k0 := ({} : Kernel).addNVertices 4
+  let k1 := [(0, 1), (1, 2), (2, 0), (0, 1), (1, 3), (3, 0)].foldl (fun k (e : Nat × Nat) => (k.addEdge e.1 e.2 true).1) k0
+  ((k1.tetAddFace [0, 2, 4] true).1.tetAddFace [6, 8, 10] true).1
+
+/-- WITNESSES that the two hypotheses cannot be dropped.  (1) Without closed loops the vertex count of 64c6d58 (both end
+    points of every halfedge: 4) and the vertices of the stored cell (start points: 3) differ — an unchecked call on
+    non-loop faces is accepted with THREE vertices.  (2) With a duplicate edge the topology-checked call accepts two
+    triangle pairs on four vertices: loops, closed surface, four vertices, not a tetrahedron, `get_cell_vertices` is
+    empty (the real `tet_vertices` still crashes on this input after 64c6d58: residual note in the finding file). -/
+theorem addCellHF_hypotheses_needed :
+    ((unloopFaces.tetAddCell [0, 2, 4, 6] false).2 = some 0 ∧ unloopFaces.spanVertCount [0, 2, 4, 6] = 4 ∧
+      (unloopFaces.tetAddCell [0, 2, 4, 6] false).1.cellVertSet 0 = [0, 1, 2]) ∧
+    ((dupPillow.tetAddCell [0, 1, 2, 3] true).2 = some 0 ∧ FaceLoops dupPillow ∧ ClosedSurface dupPillow [0, 1, 2, 3] ∧
+      ¬ NoParallel dupPillow [0, 1, 2, 3] ∧ (dupPillow.tetAddCell [0, 1, 2, 3] true).1.cellVertSet 0 = [0, 1, 2, 3] ∧
+      ¬ IsTet (dupPillow.tetAddCell [0, 1, 2, 3] true).1 0 ∧
+      (dupPillow.tetAddCell [0, 1, 2, 3] true).1.getCellVertices 0 = []) := by decide +kernel
 
 /-! ## (b) vertex-order contracts on a cell with `IsTet` -/
 
@@ -204,22 +306,81 @@ theorem returned_handle_designates (k : Kernel) (a b : Nat) (hd : k.deferred = f
     ∃ c' ∈ (k.deleteVertexCore a).props.v, c'.key = c.key ∧ c'.vals[survivingVertex false k.fast a b k.nV]? = c.vals[b]? :=
   deleteVertexCore_designates k a b hd hab ha hb c hc hlen
 
-/-- NOT PROVED (named so that the gap is explicit): the model algorithm refines the abstract operation.
-    Evaluated by lean/OVM/Tet/Judge.lean on every collapse of the correspondence run, on the
-    implementation's own states, through the vertex identity tokens. -/
-def CollapseRefines : Prop :=
-  ∀ (k : Kernel) (h : Nat), k.linkCondition h = true → k.fullBU = true → k.deferred = true →
-    ((k.collapseEdge h).1.liveCells.map (fun c => canonQuad ((k.collapseEdge h).1.cellQuad c))).Perm
-      ((absCollapse (k.fromV h) (k.toV h) (k.liveCells.map k.cellQuad)).map canonQuad)
+/-- the hypotheses of the refinement theorem: K5's global invariant, all three bottom-up caches (the C++ needs them:
+    `vc_iter`, `find_halfedge`, `find_halfface`), every stored face a closed triangle, deferred deletion mode, and the
+    link condition as the decidable predicate `linkCondition` the judge evaluates (it contains: the live mesh is a
+    simplicial complex, the edge is live, `a ≠ b`) -/
+abbrev CollapsePre (k : Kernel) (h : Nat) : Prop := CPre k h
 
-/-- NOT PROVED: the constructor walk labels an `IsTet` cell consistently (the label algebra above is about
-    the tables; this is their connection to a cell).  Evaluated for every constructor choice in the
-    correspondence run. -/
-def LabelsConsistent : Prop :=
-  ∀ (k : Kernel) (c abc : Nat) (a : Option Nat), IsTet k c → abc ∈ k.cellAt c → (∀ v, a = some v → v ∈ k.hfVerts abc) →
-    let t := Tet.mk k c abc a
-    t.fault = false ∧ (∀ r ∈ OVM.Gen.TetLabels.hel, ∃ h, t.hehL r.val = some h ∧
-      some (k.fromV h) = t.vhL r.from_ ∧ some (k.toV h) = t.vhL r.to_)
+/-- **PARTIAL (deferred deletion mode, fast or not; the two immediate modes are this followed by `collect_garbage`,
+    whose effect on the quadruples — a renumbering of the vertices — is not proved): the model algorithm refines the
+    abstract operation.**  After `collapse_edge(a → b)`:
+    * the canonical oriented vertex quadruples of the live cells are, as a multiset, `absCollapse a b` of the former
+      ones — exactly the former cells that did not contain both `a` and `b`, with `a` replaced by `b`, orientation kept;
+    * the returned handle is `b`; `b` is not deleted; `a` is deleted. -/
+theorem collapse_refines_partial (k : Kernel) (h : Nat) (P : CollapsePre k h) :
+    ((k.collapseEdge h).1.liveCells.map (fun c => canonQuad ((k.collapseEdge h).1.cellQuad c))).Perm
+      ((absCollapse (k.fromV h) (k.toV h) (k.liveCells.map k.cellQuad)).map canonQuad) ∧
+    (k.collapseEdge h).2 = k.toV h ∧ (k.collapseEdge h).1.vDeleted (k.toV h) = false ∧
+    (k.collapseEdge h).1.vDeleted (k.fromV h) = true := by
+  obtain ⟨_, _, _, _, _, _, _, _, _, _, _, _, h1, h2, h3⟩ := collapse_state P
+  exact ⟨collapse_refines P, h3, h1, h2⟩
+
+/-- the canonical representative only depends on the orientation class (so `Perm` of canonical quadruples is
+    "the same oriented tetrahedra"), and different classes have different representatives -/
+theorem canonQuad_classes (t x : List Nat) (ht : t.length = 4) (hx : x.length = 4) :
+    canonQuad x = canonQuad t ↔ x ∈ evenPerms t := canonQuad_eq_iff t x ht hx
+
+/-- the state behind `collapse_refines_partial`, cell by cell: the re-created cells are appended to the cell array in
+    the order of the star; each is a tetrahedron again whose oriented quadruple is an EVEN rearrangement of the
+    quadruple of the cell it replaces with `a` renamed to `b`; an old cell is live afterwards iff it was live and
+    does not contain `a`, and then its definition is untouched -/
+theorem collapse_cellwise_partial (k : Kernel) (h : Nat) (P : CollapsePre k h) :
+    ∃ rem : List (Nat × List Nat), rem.map (·.1) = rebuilt k h ∧
+      (k.collapseEdge h).1.cells = k.cells ++ rem.map (·.2) ∧
+      (∀ c, c ∈ rebuilt k h ↔ (k.liveC c = true ∧ k.fromV h ∈ k.cellVertSet c ∧ k.toV h ∉ k.cellVertSet c)) ∧
+      (∀ c, c < k.nC → ((k.collapseEdge h).1.cDeleted c = false ↔ (k.cDeleted c = false ∧ k.fromV h ∉ k.cellVertSet c))) ∧
+      (∀ i (hi : i < rem.length), (k.collapseEdge h).1.cDeleted (k.nC + i) = false ∧
+        IsTet (k.collapseEdge h).1 (k.nC + i) ∧
+        (k.collapseEdge h).1.cellQuad (k.nC + i) ∈ evenPerms ((k.cellQuad rem[i].1).map (substV (k.fromV h) (k.toV h)))) := by
+  obtain ⟨rem, k1, _, _, q5, q6, s1, s2, s3, _, s5, s6, _, _, _⟩ := collapse_state P
+  refine ⟨rem, q5, s1, mem_rebuilt_iff P, s5, fun i hi => ?_⟩
+  have hmem : rem[i] ∈ rem := List.getElem_mem hi
+  have hreb : rem[i].1 ∈ rebuilt k h := by rw [← q5]; exact List.mem_map.mpr ⟨_, hmem, rfl⟩
+  obtain ⟨hl, _, hb⟩ := (mem_rebuilt_iff P _).mp hreb
+  have hcell : (k.collapseEdge h).1.cellAt (k.nC + i) = rem[i].2 := by
+    unfold cellAt; rw [s1, List.getD_eq_getElem?_getD, List.getElem?_append_right (by unfold nC; omega)]
+    simp [nC, hi]
+  have := newCell_quad (P.isTet hl) (q6 _ hmem) (fun hx => hb hx.2) hcell (fun x _ => hfVerts_of_eq s3 s2 x)
+  exact ⟨s6 i hi, this.1, this.2.1⟩
+
+/-- **C15(c), the link from a cell to the tables**: for a cell that is a tetrahedron (`IsTet`), whose halffaces are
+    closed loops and which passes the closed-surface test of `add_cell`, every constructor choice
+    `TetTopology(mesh, c, abc, a)` labels consistently: no invalid handle is read; four distinct vertices, `A` the
+    requested start; every labelled halfedge joins its two labelled vertices and is a halfedge of the cell; every
+    labelled halfface (all 32 labels) is the cell's — for outer labels the opposite — halfface on those vertices in
+    that rotation, with `triangle_topology` giving the spelled vertices and the halfedges joining them; `get_label`
+    (vertex, halfedge, halfface, halfface + start vertex) inverts the accessors.  (`LabelsOK`: OVM/Tet/LabelsCell.lean) -/
+theorem labels_consistent (k : Kernel) (c abc : Nat) (a : Option Nat) (ht : IsTet k c) (hm : abc ∈ k.cellAt c)
+    (ha : ∀ v, a = some v → v ∈ k.hfVerts abc) (hloop : ∀ hf ∈ k.cellAt c, OVM.Tet.LabelsCell.LoopHF k hf)
+    (hcl : ClosedSurface k (k.cellAt c)) :
+    OVM.Tet.LabelsCell.LabelsOK k c abc a (Tet.mk k c abc a) :=
+  OVM.Tet.LabelsCell.labels_consistent k c abc a ht hm ha hloop hcl
+
+/-- WITNESSES that the two extra hypotheses are needed (`IsTet` only constrains the vertex cycles of the four
+    halffaces): duplicate edges — loops, not a closed surface, an invalid handle is read; faces that are not loops,
+    accepted by `add_cell` with topology check — a labelled halfedge does not join its labelled vertices, or an
+    invalid handle is read.  (A precondition of `TetTopology`, not a defect: see the comment in LabelsCell.lean.) -/
+theorem labels_need_closed_loops :
+    (∃ k c abc, IsTet k c ∧ abc ∈ k.cellAt c ∧ (∀ hf ∈ k.cellAt c, OVM.Tet.LabelsCell.LoopHF k hf) ∧
+      ¬ ClosedSurface k (k.cellAt c) ∧ (Tet.mk k c abc none).fault = true) ∧
+    (∃ k c abc, IsTet k c ∧ abc ∈ k.cellAt c ∧ ClosedSurface k (k.cellAt c) ∧ k.cells.length = 1 ∧
+      (Tet.mk k c abc none).fault = false ∧ (Tet.mk k c abc none).hehL 0 = some 5 ∧
+      some (k.toV 5) ≠ (Tet.mk k c abc none).vhL 1) ∧
+    (∃ k c abc, IsTet k c ∧ abc ∈ k.cellAt c ∧ ClosedSurface k (k.cellAt c) ∧ k.cells.length = 1 ∧
+      (Tet.mk k c abc none).fault = true) :=
+  ⟨OVM.Tet.LabelsCell.labelsConsistent_needs_closed, OVM.Tet.LabelsCell.labelsConsistent_needs_loops,
+   OVM.Tet.LabelsCell.labelsConsistent_fault_on_accepted_cell⟩
 
 /-! ## non-vacuity -/
 
@@ -249,8 +410,31 @@ example : threeTets.linkCondition 0 = true ∧
     ((threeTets.enableDeferred false).collapseEdge 0).2 = 1 ∧
     (((threeTets.enableDeferred false).enableFast false).collapseEdge 0).2 = 0 ∧
     ValenceShape (threeTets.collapseEdge 0).1 ∧ TetShape ((threeTets.enableDeferred false).collapseEdge 0).1 := by decide +kernel
-example : Admissible ({} : Kernel) [.base (.addNVertices 5), .addCell4 true 0 1 2 3, .addCell4 true 0 2 1 4, .collapse 0,
-    .base .collectGarbage] := by decide +kernel
+-- a history in IMMEDIATE NON-FAST mode (index-shifting erases) is admissible; the theorem gives the shape (test: cross-check)
+example : AdmissibleAll {} sampleImm ∧ TInv (runTetX {} sampleImm) ∧ (runTetX {} sampleImm).deferred = false ∧
+    (runTetX {} sampleImm).fast = false :=
+  have h := admissibleAll_of_B _ _ (by decide +kernel : admissibleAllB {} sampleImm = true)
+  ⟨h, tinv_reachable _ h, by decide +kernel, by decide +kernel⟩
+
+/-- three tetrahedra around the vertex 0 (as `threeTets`), as a history of the driver vocabulary -/
+def fanOps : List TetOp := [.base (.addNVertices 6), .addCell4 true 0 1 2 3, .addCell4 true 0 2 1 4, .addCell4 true 0 3 2 5]
+
+-- the hypotheses of the refinement theorem hold on the 3-tet fan for the halfedge 0 → 1 …
+theorem fan_pre : CollapsePre (runTetX {} fanOps) 0 :=
+  ⟨(tinv_reachable _ (admissibleAll_of_B _ _ (by decide +kernel))).ginv, by decide +kernel, by decide +kernel,
+   by decide +kernel, by decide +kernel⟩
+
+-- … the theorem applies, and its two sides evaluate to what it says (test, labelled so): the two cells with the edge
+-- are gone, the third one is rebuilt on vertex 1 in the same orientation
+example : runTetX {} fanOps = threeTets ∧ rebuilt threeTets 0 = [2] ∧
+    (threeTets.collapseEdge 0).1.liveCells.map (fun c => canonQuad ((threeTets.collapseEdge 0).1.cellQuad c)) = [[1, 2, 5, 3]] ∧
+    (absCollapse 0 1 (threeTets.liveCells.map threeTets.cellQuad)).map canonQuad = [[1, 2, 5, 3]] ∧
+    (threeTets.collapseEdge 0).1.liveCells.map (threeTets.collapseEdge 0).1.cellQuad = [[1, 3, 2, 5]] ∧
+    threeTets.cellQuad 2 = [0, 3, 2, 5] := by decide +kernel
+example := collapse_refines_partial _ 0 fan_pre
+-- `add_cell(v0,v1,v2,v3)`: the hypotheses hold on the two glued tets, a third tet on the face (0,2,3) is `IsTet`
+example : FaceLoops twoTets.addVertex.1 ∧ AllTet twoTets.addVertex.1 ∧
+    (twoTets.addVertex.1.tetAddCell4 0 3 2 5 true).2 = some 2 ∧ IsTet threeTets 2 := by decide +kernel
 example : survivingVertex false false 2 5 9 = 4 ∧ survivingVertex false true 2 8 9 = 2 ∧ survivingVertex true true 2 8 9 = 8 := by decide
 -- the label of a halfedge whose name spells (D, B) goes from D to B and is the opposite of BD
 example : (helRow? (helVal "DB")).map (fun r => (r.from_, r.to_, r.opp)) = some (3, 1, helVal "BD") := by decide
